@@ -17,6 +17,7 @@ import (
 	"go/constant"
 	"go/token"
 	"go/types"
+	"regexp"
 	"sort"
 	"strings"
 )
@@ -69,6 +70,7 @@ func c16DurMs(e ast.Expr, what string) int64 {
 }
 
 func genC16() {
+	runGen("c16guards", genC16Guards)
 	fset, f := parseFile("syncer/replica.go")
 	var calls []string
 	gap := int64(-1)
@@ -82,17 +84,50 @@ func genC16() {
 			continue
 		}
 		name := fd.Name.Name
+		// preSync's distance variable is found by its DEFINITION (`<v> := <a>.Offset - <b>.Offset`), not by
+		// its name: a renamed local leaves the facts and the regenerated threshold as they were
+		gapName := "gap"
+		if name == "preSync" {
+			ast.Inspect(fd.Body, func(n ast.Node) bool {
+				as, ok := n.(*ast.AssignStmt)
+				if !ok || as.Tok != token.DEFINE || len(as.Lhs) != 1 || len(as.Rhs) != 1 {
+					return true
+				}
+				be, ok := as.Rhs[0].(*ast.BinaryExpr)
+				if !ok || be.Op != token.SUB {
+					return true
+				}
+				l, ok1 := be.X.(*ast.SelectorExpr)
+				r, ok2 := be.Y.(*ast.SelectorExpr)
+				if id, ok3 := as.Lhs[0].(*ast.Ident); ok1 && ok2 && ok3 && l.Sel.Name == "Offset" && r.Sel.Name == "Offset" {
+					gapName = id.Name
+				}
+				return true
+			})
+		}
 		ast.Inspect(fd.Body, func(n ast.Node) bool {
 			switch x := n.(type) {
 			case *ast.IfStmt:
 				cond := c12Render(fset, x.Cond)
-				if strings.Contains(cond, "Offset") || strings.Contains(cond, "RunId") || strings.Contains(cond, "gap") ||
+				if name == "preSync" && gapName != "gap" {
+					cond = regexp.MustCompile(`\b`+regexp.QuoteMeta(gapName)+`\b`).ReplaceAllString(cond, "gap")
+				}
+				// the offset guards are REGENERATED (c16guards.go -> Gen/ReplicaGuards.lean, Props/C16Guards.lean):
+				// their text is not a source fact any more
+				body := c12Render(fset, x.Body)
+				regenerated := (name == "Handle" && strings.Contains(body, "SyncResponse_HANDOVER")) ||
+					(name == "sendData" && strings.Contains(cond, "IsValidOffset")) ||
+					(name == "preSync" && regexp.MustCompile(`\bgap\b`).MatchString(cond)) ||
+					(name == "aofSync" && strings.Contains(body, "channel.DelRunId("))
+				if regenerated {
+					// nothing
+				} else if strings.Contains(cond, "Offset") || strings.Contains(cond, "RunId") || strings.Contains(cond, "gap") ||
 					strings.Contains(cond, "IsInitial") || strings.Contains(cond, "GetCode") || strings.Contains(cond, "len(args)") ||
 					strings.Contains(cond, "IsValidOffset") || strings.Contains(cond, "runIds") {
 					calls = append(calls, name+": if "+cond)
 				}
 				if be, ok := x.Cond.(*ast.BinaryExpr); ok && be.Op == token.GTR && name == "preSync" {
-					if id, ok := be.X.(*ast.Ident); ok && id.Name == "gap" {
+					if id, ok := be.X.(*ast.Ident); ok && id.Name == gapName {
 						if bl, ok := be.Y.(*ast.BasicLit); !ok || bl.Value != "0" {
 							gap = c16Eval(be.Y, "preSync gap threshold")
 						}
@@ -133,7 +168,18 @@ func genC16() {
 				}
 				if id, ok := s.X.(*ast.Ident); ok && id.Name == "stream" && s.Sel.Name == "Send" && len(x.Args) == 1 {
 					code := "?"
-					ast.Inspect(x.Args[0], func(m ast.Node) bool {
+					arg := ast.Node(x.Args[0])
+					// a message built by a package-level helper (`stream.Send(contMsg(…))`): look into the helper
+					if ce, ok := x.Args[0].(*ast.CallExpr); ok {
+						if id, ok := ce.Fun.(*ast.Ident); ok {
+							for _, d2 := range f.Decls {
+								if hd, ok := d2.(*ast.FuncDecl); ok && hd.Recv == nil && hd.Name.Name == id.Name && hd.Body != nil {
+									arg = hd.Body
+								}
+							}
+						}
+					}
+					ast.Inspect(arg, func(m ast.Node) bool {
 						if kv, ok := m.(*ast.KeyValueExpr); ok {
 							if k, ok := kv.Key.(*ast.Ident); ok && k.Name == "Code" {
 								code = c12Render(fset, kv.Value)
